@@ -315,6 +315,22 @@ func c02Run(w *kernel.Worker, j *c02Job, rep *kernel.Report) (*Fail, error) {
 		return &Fail{FP: fp, What: what}, nil
 	}
 	defer func() { _ = delIndex(w, 0, idx) }()
+	if pqs {
+		// non-vacuity: the segment written after the registration carries persistent-query result files
+		var files map[string]int64
+		if err := w.Call("files", map[string]interface{}{"contains": "/" + idx + "/"}, &files); err == nil {
+			n := 0
+			for p := range files {
+				if strings.Contains(p, "pqmr") {
+					n++
+				}
+			}
+			if n > 0 {
+				rep.Add("pqs_jobs_with_pqmr_files", 1)
+			}
+			rep.Add("pqs_jobs", 1)
+		}
+	}
 	var model []*MEvent
 	for _, e := range ds.Events {
 		m, err := Flatten(e, "timestamp")
